@@ -297,7 +297,13 @@ def gen_case(rng, i, tier):
             # the path continues below a scalar or a list: there is nothing to address there
             bad = list(tpath) + [rng.choice(['x', 'a', '0'])]
             broken = 'dangling-below-leaf'
-        ref = make_ref(rng, bad, docs[td]['name'], cross, labels) if form.startswith(('map', 'list')) else path_text(bad)
+        if form.startswith(('map', 'list')):
+            ref = make_ref(rng, bad, docs[td]['name'], cross, labels)
+        elif cross:
+            # string form across documents: the dangling path must be looked up in the target document, not in the host's
+            ref = '[{name: %s}, %s]' % (docs[td]['name'], ', '.join(bad))
+        else:
+            ref = path_text(bad)
     elif r < 0.14 and cross:
         broken = 'no-doc'
         ref = {'$match': {'name': 'nobody'}, '$path': list(tpath)}
